@@ -583,29 +583,48 @@ Fixpoint trun (O : oracles) (stt : tstate) (ops : list hop) : list obs * tstate 
       end
   end.
 
+(* ------------------------------------------------------------------ mixture/ideal_mixture_model.py *)
+(* IdealTPMixtureModel / IdealTMixtureModel:  sum([j * models[i](phase, T, P) for i, j in mol.dct.items()])
+   (mol.dct holds the non-zero entries; a zero entry contributes nothing either way) *)
+Definition pure_model := phase -> Q -> Q -> Q.
+Definition ideal_sum (models : list pure_model) (p : phase) (mol : vec) (T P : Q) : Q :=
+  qsum (map2 (fun j (f : pure_model) => if qzerob j then 0 else j * f p T P) mol models).
+(* IdealEntropyModel:  total_mol = mol.sum();  sum([j * models[i](phase, T, P) + j * log(j / total_mol) for ...]);
+   [lnf] stands for math.log *)
+Definition ideal_S (lnf : Q -> Q) (models : list pure_model) (p : phase) (mol : vec) (T P : Q) : Q :=
+  let tot := qsum mol in
+  qsum (map2 (fun j (f : pure_model) => if qzerob j then 0 else j * f p T P + j * lnf (j / tot)) mol models).
+
 (* ------------------------------------------------------------------ instances used by the correspondence *)
 (* stub package: H(phase) = sum n_i (Cn_i(phase) (T - Tref) + L_i(phase)) with one heat capacity for the condensed
    phases, another for the gas, and a latent offset for the gas; the solver lands on the closed-form root, which is
    one Newton step of iter_T_at_HP from the guess *)
-Record stubp := mkP { cnl : vec; cng : vec; latg : vec; s0l : vec; s0g : vec }.
-  (* Cn of the condensed phases, Cn of the gas, latent offset of the gas, entropy offsets *)
+Record stubp := mkP { cnl : vec; cng : vec; latg : vec; s0l : vec; s0g : vec; kpl : vec; kpg : vec; Pref : Q }.
+  (* Cn of the condensed phases, Cn of the gas, latent offset of the gas, entropy offsets, pressure coefficients *)
 Definition cn_of (c : stubp) (p : phase) : vec := if (p =? 3)%nat then cng c else cnl c.
 Definition lat_of (c : stubp) (p : phase) : vec := if (p =? 3)%nat then latg c else [].
 Definition s0_of (c : stubp) (p : phase) : vec := if (p =? 3)%nat then s0g c else s0l c.
-Definition lin_Cn (c : stubp) (m : pmol) : Q := fold_right (fun pv acc => vdot (cn_of c (fst pv)) (snd pv) + acc) 0 m.
-Definition lin_L (c : stubp) (m : pmol) : Q := fold_right (fun pv acc => vdot (lat_of c (fst pv)) (snd pv) + acc) 0 m.
-Definition lin_S0 (c : stubp) (m : pmol) : Q := fold_right (fun pv acc => vdot (s0_of c (fst pv)) (snd pv) + acc) 0 m.
+Definition kp_of (c : stubp) (p : phase) : vec := if (p =? 3)%nat then kpg c else kpl c.
+Definition lin_sum (f : stubp -> phase -> vec) (c : stubp) (m : pmol) : Q :=
+  fold_right (fun pv acc => vdot (f c (fst pv)) (snd pv) + acc) 0 m.
+Definition lin_Cn : stubp -> pmol -> Q := lin_sum cn_of.
+Definition lin_L : stubp -> pmol -> Q := lin_sum lat_of.
+Definition lin_S0 : stubp -> pmol -> Q := lin_sum s0_of.
+Definition lin_K : stubp -> pmol -> Q := lin_sum kp_of.
+(* enthalpy depends on phase, temperature AND pressure (as with an equation of state or excess energies):
+   H = sum n_i (Cn_i(phase) (T - Tref) + L_i(phase) + k_i(phase) (P - Pref) / 1024) *)
 Definition lin_H (c : stubp) (Tref : Q) : phase -> vec -> Q -> Q -> Q :=
-  fun p v T _ => vdot (cn_of c p) v * (T - Tref) + vdot (lat_of c p) v.
-(* the stub entropy is rational as well: S(phase) = sum n_i (Cn_i(phase) (T - Tref) / 256 + s0_i(phase)) *)
+  fun p v T P => vdot (cn_of c p) v * (T - Tref) + vdot (lat_of c p) v + vdot (kp_of c p) v * (P - Pref c) / 1024.
+(* S = sum n_i (Cn_i(phase) (T - Tref) / 256 + s0_i(phase) - k_i(phase) (P - Pref) / 65536) *)
 Definition lin_S (c : stubp) (Tref : Q) : phase -> vec -> Q -> Q -> Q :=
-  fun p v T _ => vdot (cn_of c p) v * (T - Tref) / 256 + vdot (s0_of c p) v.
+  fun p v T P => vdot (cn_of c p) v * (T - Tref) / 256 + vdot (s0_of c p) v - vdot (kp_of c p) v * (P - Pref c) / 65536.
 Definition lin_solve (c : stubp) (Tref : Q) : pmol -> Q -> Q -> Q -> res Q := fun m h Tg P =>
   do r <- iter_T_at_HP Tg h (fun T => xsum (lin_H c Tref) m T P) (fun _ => lin_Cn c m) (O, None);
   Ok (fst r).
 (* entropy: the root in closed form (division by Cn = 0 raises as in iter_T_at_SP) *)
 Definition lin_solveS (c : stubp) (Tref : Q) : pmol -> Q -> Q -> Q -> res Q := fun m x Tg P =>
-  if qzerob (lin_Cn c m) then Err EZeroDiv else Ok (Tref + 256 * (x - lin_S0 c m) / lin_Cn c m).
+  if qzerob (lin_Cn c m) then Err EZeroDiv
+  else Ok (Tref + 256 * (x - lin_S0 c m + lin_K c m * (P - Pref c) / 65536) / lin_Cn c m).
 Definition lin_oracles (c : stubp) (hf : vec) (Tref : Q) : oracles :=
   mkO (lin_H c Tref) (lin_S c Tref) (lin_solve c Tref) (lin_solveS c Tref) hf.
 
